@@ -5,7 +5,7 @@ package priority
 // Simple.main is blocked inside priority.GracefulStop().
 // Copy into /repo/priority and run:
 //   go test -vet=off -count=1 -run TestVerifSimpleStopAfterGraceful ./priority/
-// Fails on the pinned tree (recorded as a known finding, not repaired).
+// Failed on the pinned tree; repaired by /repo commit 68d7709 ("fix: v1 Simple ignores Stop ...").
 
 import (
 	"context"
